@@ -308,6 +308,7 @@ type workerOut struct {
 	Infra      string              `json:"infra"`
 	Pruned     int64               `json:"pruned"`
 	States     int64               `json:"states"`
+	Unbounded  bool                `json:"unbounded"` // explored without a preemption bound (Capped: the execution cap ended it first)
 }
 
 var raceFrame = regexp.MustCompile(`container-device-interface/(pkg/cdi\.[^\s]+|specs-go\.[^\s]+|pkg/parser\.[^\s]+|schema\.[^\s]+)\(\)`)
@@ -420,6 +421,10 @@ func raceLogTail() string {
 	return string(buf)
 }
 
+// state-cache statistics of the explorer, summed over scenarios
+var cutExecs, hbStates int64
+var unbTotal, unbDone int
+
 func main() {
 	explore.BeforeExec = []func(){cdi.VerifResetGlobals}
 	for i, a := range os.Args {
@@ -443,40 +448,63 @@ func main() {
 				preempt = v
 			}
 			enc := json.NewEncoder(os.Stdout)
-			k := 0
-			for _, sn := range scenarios(thorough) {
-				if only := os.Getenv("VERIF_C12_ONLY"); only != "" && !strings.Contains(sn.String(), only) {
-					continue
-				}
-				for _, eager := range []bool{false, true} {
-					if eager && !sn.Auto {
-						continue // without watcher threads both orders coincide
-					}
-					k++
-					if k%wn != wi {
+			// pass 0: every scenario up to the preemption bound (the run is exhaustive when this pass
+			// completes). pass 1 (not in the race build): every scenario again with NO preemption bound,
+			// each under an execution cap - the state cache makes many of them finish; the evidence
+			// reports how many did.
+			passes := 2
+			if raceBuild {
+				passes = 1
+			}
+			for pass := 0; pass < passes; pass++ {
+				k := 0
+				for _, sn := range scenarios(thorough) {
+					if only := os.Getenv("VERIF_C12_ONLY"); only != "" && !strings.Contains(sn.String(), only) {
 						continue
 					}
-					p := preempt
-					if sn.Kind == "pair" {
-						p = preempt - 1 // the pair matrix is wide (105 pairs x 2 modes): one preemption less than the switch scenarios
-					}
-					sc := scenario(sn, eager, p)
-					if raceBuild {
-						// this binary's scheduler hands over through raw pipe syscalls: the race detector
-						// checks every explored (serialised) schedule; new reports belong to the schedule just run
-						sc.Bounds.Preemptions = p - 1
-						if sc.Bounds.Preemptions < 0 {
-							sc.Bounds.Preemptions = 0
+					for _, eager := range []bool{false, true} {
+						if eager && !sn.Auto {
+							continue // without watcher threads both orders coincide
 						}
-						sc.AfterExec = func(e *sched.Exec) (string, string, any) {
-							for sig, rep := range parseRaceText(raceLogTail()) {
-								return "data-race:" + sig, "the Go race detector reports a data race between " + sig + " in this schedule of " + sn.String(), rep
+						if eager && pass == 1 {
+							continue // without a bound both default orders enumerate the same schedules
+						}
+						k++
+						if k%wn != wi {
+							continue
+						}
+						if pass == 1 {
+							sc := scenario(sn, eager, 1<<20)
+							sc.MaxExecs = 2000
+							if thorough {
+								sc.MaxExecs = 150000
 							}
-							return "", "", nil
+							res := explore.Explore(sc, time.Unix(dl, 0))
+							_ = enc.Encode(workerOut{Scenario: sn, Eager: eager, Unbounded: true, Executions: res.Executions, Points: res.Points, Outcomes: res.Outcomes, Violations: res.Violations, Capped: res.Capped, Infra: res.Infra, Pruned: res.Pruned, States: res.States})
+							continue
 						}
+						p := preempt
+						if sn.Kind == "pair" {
+							p = preempt - 1 // the pair matrix is wide (105 pairs x 2 modes): one preemption less than the switch scenarios
+						}
+						sc := scenario(sn, eager, p)
+						if raceBuild {
+							// this binary's scheduler hands over through raw pipe syscalls: the race detector
+							// checks every explored (serialised) schedule; new reports belong to the schedule just run
+							sc.Bounds.Preemptions = p - 1
+							if sc.Bounds.Preemptions < 0 {
+								sc.Bounds.Preemptions = 0
+							}
+							sc.AfterExec = func(e *sched.Exec) (string, string, any) {
+								for sig, rep := range parseRaceText(raceLogTail()) {
+									return "data-race:" + sig, "the Go race detector reports a data race between " + sig + " in this schedule of " + sn.String(), rep
+								}
+								return "", "", nil
+							}
+						}
+						res := explore.Explore(sc, time.Unix(dl, 0))
+						_ = enc.Encode(workerOut{Scenario: sn, Eager: eager, Executions: res.Executions, Points: res.Points, Outcomes: res.Outcomes, Violations: res.Violations, Capped: res.Capped, Infra: res.Infra, Pruned: res.Pruned, States: res.States})
 					}
-					res := explore.Explore(sc, time.Unix(dl, 0))
-					_ = enc.Encode(workerOut{Scenario: sn, Eager: eager, Executions: res.Executions, Points: res.Points, Outcomes: res.Outcomes, Violations: res.Violations, Capped: res.Capped, Infra: res.Infra, Pruned: res.Pruned, States: res.States})
 				}
 			}
 			os.RemoveAll(scratch)
@@ -564,10 +592,19 @@ func main() {
 			os.RemoveAll(scratch)
 			os.Exit(2)
 		}
-		if o.Capped {
+		if o.Unbounded {
+			unbTotal++
+			if !o.Capped {
+				unbDone++
+			}
+			r.Extra["scenarios_run_without_preemption_bound"] = unbTotal
+			r.Extra["of_which_explored_completely"] = unbDone
+		} else if o.Capped {
 			r.Cap("time cap hit")
 		}
 		r.AddEvals(o.Executions, o.Executions)
+		cutExecs, hbStates = cutExecs+o.Pruned, hbStates+o.States
+		r.Extra["executions_cut_at_an_explored_state"], r.Extra["happens_before_states_stored"] = cutExecs, hbStates
 		r.States.Add(o.Points)
 		r.Transitions.Add(o.Points)
 		for k := range o.Outcomes {
